@@ -36,7 +36,7 @@ class Inputs:
         self.values = dict(values) if values else {}
         self.rnd = random.Random(seed)
         self.decl = {}
-        self.assumptions = []
+        self.assumptions = _PcList()
 
     # -- scalars -----------------------------------------------------------
     def _num(self, name, lo, hi, integer=False, nonzero=False):
@@ -137,6 +137,16 @@ class Inputs:
     @property
     def symbolic(self):
         return self.mode == "sym"
+
+
+class _PcList(list):
+    """assumptions are also pushed onto the live path condition so that branch
+    feasibility and concretisation respect them"""
+
+    def append(self, f):
+        list.append(self, f)
+        if sym.CTX is not None:
+            sym.CTX.pc.append(f)
 
 
 class PreconditionFailed(Exception):
